@@ -80,9 +80,9 @@ def build_corpus(tier, root):
         if tier == "quick" and label == "shipped" and "test_files" not in base:
             archs = [archs[hash_idx(base, len(archs))], archs[hash_idx(base + "x", len(archs))]]
         for a in sorted(set(archs)):
-            opt_sets = [[], ["--fixed"], ["-f"], ["--ignore-unknown"], ["--fixed", "-f"]]
+            opt_sets = [[], ["--fixed"], ["-f"], ["--ignore-unknown"], ["--fixed", "-f"], ["-v"], ["--lcd-timeout", "-1"]]
             if tier == "quick":
-                opt_sets = [opt_sets[0], opt_sets[1 + hash_idx(base + a, 4)]]
+                opt_sets = [opt_sets[0], opt_sets[1 + hash_idx(base + a, 6)]]
             for opts in opt_sets:
                 configs.append({"argv": ["--arch", a] + opts + [fn], "isa": isa, "arch": a, "label": label,
                                 "kernel": base, "fixed": "--fixed" in opts})
